@@ -54,3 +54,16 @@ package appmanifest
 //@   on call setAssemblyIdentity(_, _) ret (a, e): asiDone = (e == nil)
 //@   on call setPublisherIdentity(_, _) ret (s, e): pubDone = (e == nil)
 //@   before call xmldsig.Sign(_, _, _, k, cs, _): assert @identity_fields_set_before_signing_with_the_same_certificate asiDone && pubDone
+
+//@ func Verify
+//@   property C02 C19
+//@   ghost prim *xmldsig.Signature = nil
+//@   ghost sec *xmldsig.Signature = nil
+//@   ghost verifies int = 0
+//@   ghost sameKey bool = false
+//@   ghost tokenKeyOK bool = false
+//@   on call xmldsig.Verify(el, path, extra) ret (s, e): prim = ite(verifies == 0 && e == nil && el == root && path == "Signature", s, prim); \
+//@        sec = ite(verifies == 1 && e == nil && el == license && path == "issuer/Signature", s, sec); verifies = verifies + 1
+//@   on call x509tools.SameKey(a, b) ret (r): sameKey = (r && prim != nil && sec != nil && a == atcall(prim.PublicKey) && b == atcall(sec.PublicKey))
+//@   on call PublicKeyToken(k) ret (t, e): tokenKeyOK = (e == nil && prim != nil && k == atcall(prim.PublicKey))
+//@   ensures @both_signatures_verified_and_made_with_one_key ret1 == nil ==> prim != nil && sec != nil && sameKey && tokenKeyOK
